@@ -1198,7 +1198,8 @@ def op_txt_fields(scn):
     line = " " + ", ".join(names)
     out = {"line": line,
            "parsed_line": [p.strip() for p in line.split(",")],
-           "parsed_text": [p.strip() for p in scn["text"].split(",")]}
+           "parsed_text": [p.strip() for p in scn["text"].split(",")],
+           "stripped": scn["pline"].replace(scn["prefix"], "")}
     # through the library: only when every name is a non-empty single line without ':' (the
     # reader removes the prefix with str.replace) - otherwise the file layer is out of scope
     lib = None
